@@ -164,6 +164,13 @@ def shard(shard_no, nshards, seed, tier, extra):
     for i in range(n):
         code, g = progs.straightline(rng, B, allow={"max_jumpi": 5})
         gi = {"mem_offsets": g.mem_offsets, "features": g.features}
+        if rng.random() < 0.03:
+            # the same program inside a long code blob (unreachable padding behind a STOP): CODESIZE, PC and every
+            # offset computation now run at lengths beyond the deployed-code and init-code limits
+            target = rng.choice([24576, 24577, 24600, 32768, 49152, 49153, 65537])
+            if len(code) + 1 < target:
+                code = code + b"\x00" + bytes([rng.choice([0x00, 0x5b, 0xfe])]) * (target - len(code) - 1)
+                gi["features"] = set(gi["features"]) | {"long-code"}
         req = {"op": "analyze", "code": code.hex(), "direct_vm": True, "observe": ["states"], "annotate": True,
                "mem_offsets": ["0x%x" % o for o in sorted(g.mem_offsets)], "state_cap": 64,
                "cfg": {"permissive": True}}
@@ -181,7 +188,7 @@ def run(tier, seed, t0):
         PROP, tier, seed, res, "exploration",
         "random stack-safe loop-free programs (1-6 blocks, forward JUMP/JUMPI to constant targets, <= 5 JUMPIs) over "
         "PUSH0..32, DUP1-16, SWAP1-16, POP, all ALU opcodes, PC, CODESIZE, word-aligned MSTORE/MLOAD, literal-key "
-        "SLOAD/SSTORE; operands biased to boundary constants; every stored state is compared with the matching path "
+        "SLOAD/SSTORE; operands biased to boundary constants; 3% of the programs embedded in code blobs of 24 576 .. 65 537 bytes; every stored state is compared with the matching path "
         "of the reference EVM (stack at all depths, memory words, per-key ordered storage writes). distinct = distinct "
         "bytecode; non-trivial = more than one path or >= 4 opcode families",
         t0, ["vlib/evmref.py and vlib/treeeval.py are correct EVM semantics",
